@@ -245,6 +245,11 @@ def coq_val(v):
     return "(V%s %d)" % (v[0], v[1])
 
 
+def zl(zs):
+    """list Z literal"""
+    return "[%s]%%Z" % ";".join(str(z) if z >= 0 else "(%d)" % z for z in zs) if zs else "[]"
+
+
 def coq_outcome(o):
     if o[0] == "T":
         return "PTrue"
@@ -432,12 +437,19 @@ def run_chain(inp):
             y = mk_operand(o, x, classes, fieldlists, world, n)
             outs.append(["probe", eq_quad(x, y, world)])
         else:
-            _, c, dom = it
+            c, dom = it[1], it[2]
             i = n - 1 - c
             k = len(fieldlists[i])
-            vecs = [[["i", z] for z in v] for v in itertools.product(dom, repeat=k)]
+            vecs = [] if it[0] == "pair" else [[["i", z] for z in v] for v in itertools.product(dom, repeat=k)]
             codes = []
-            for xv in vecs:
+            if it[0] == "pair":
+                x = instantiate(classes[i], fieldlists[i], [["i", z] for z in it[2]], world)
+                i2 = n - 1 - it[3]
+                y = instantiate(classes[i2], fieldlists[i2], [["i", z] for z in it[4]], world)
+                q = eq_quad(x, y, world)
+                outs.append(["all", [sum(_digit(r[0]) * 4 ** j for j, r in enumerate(q))]])
+                continue
+            for xv in (vecs if it[0] == "all" else [[["i", z] for z in it[3]]]):
                 x = instantiate(classes[i], fieldlists[i], xv, world)
                 for yv in vecs:
                     y = instantiate(classes[i], fieldlists[i], yv, world)
@@ -474,8 +486,12 @@ def chain_case(inp):
     for it in inp["items"]:
         if it[0] == "probe":
             items.append("(IProbe %d %s %s)" % (it[1], lst(coq_val(v) for v in it[2]), coq_operand(it[3])))
+        elif it[0] == "all":
+            items.append("(IAll %d %s)" % (it[1], zl(it[2])))
+        elif it[0] == "row":
+            items.append("(IRow %d %s %s)" % (it[1], zl(it[2]), zl(it[3])))
         else:
-            items.append("(IAll %d %s)" % (it[1], lst("(%d)%%Z" % z for z in it[2])))
+            items.append("(IPair %d %s %d %s)" % (it[1], zl(it[2]), it[3], zl(it[4])))
     if seen["def"] == "ValueError":
         cs = "SeenErr"
     elif seen["def"] == "ok":
@@ -569,11 +585,17 @@ def sweep_cases(rng, tier):
         combos = list(itertools.product(PALETTE, repeat=k))
         if k == 3:
             rng.shuffle(combos)
-            combos = combos[:90 if tier == "quick" else len(combos)]
+            combos = combos[:50 if tier == "quick" else len(combos)]
         for combo in combos:
             own = [[NAMES[i]] + list(t) for i, t in enumerate(combo)]
             dom = rng.choice([[0, 1, 2], [0, 1, 2], [-1, 0, 1]])
-            out.append({"chain": [rand_layer(rng, own)], "script": {}, "items": [["all", 0, dom]]})
+            layer = rand_layer(rng, own)
+            if k < 3:
+                out.append({"chain": [layer], "script": {}, "items": [["all", 0, dom]]})
+            else:
+                rows = [["row", 0, dom, list(xv)] for xv in itertools.product(dom, repeat=k)]
+                for j in range(0, len(rows), 3):
+                    out.append({"chain": [layer], "script": {}, "items": rows[j:j + 3]})
     return out
 
 
@@ -594,11 +616,11 @@ def scripted_cases(rng, tier):
             vectors = list(itertools.product(range(len(OUTCOMES)), repeat=k))
             if tier == "quick" and k == 3:
                 rng.shuffle(vectors)
-                vectors = vectors[:40]
-            for chunk in range(0, len(vectors), 12):
+                vectors = vectors[:30]
+            for chunk in range(0, len(vectors), 3):
                 script, items = {}, []
                 nid = 1
-                for vec in vectors[chunk:chunk + 12]:
+                for vec in vectors[chunk:chunk + 3]:
                     xv, yv = [], []
                     same = rng.random() < 0.25
                     for i, oc in enumerate(vec):
@@ -665,9 +687,20 @@ def rand_vals(rng, k, dom=(0, 1, 2)):
     return [["i", rng.choice(dom)] for _ in range(k)]
 
 
+def compact(items):
+    out = []
+    for it in items:
+        if (it[0] == "probe" and it[3][0] == "inst" and all(v[0] == "i" for v in it[2])
+                and all(v[0] == "i" for v in it[3][2])):
+            out.append(["pair", it[1], [v[1] for v in it[2]], it[3][1], [v[1] for v in it[3][2]]])
+        else:
+            out.append(it)
+    return out
+
+
 def chain_cases(rng, tier):
     out = []
-    n_cases = 120 if tier == "quick" else 900
+    n_cases = 100 if tier == "quick" else 900
     for _ in range(n_cases):
         depth = rng.choice([2, 2, 3])
         specs, names_so_far = [], []
@@ -719,8 +752,11 @@ def chain_cases(rng, tier):
                     xv[j] = ["n", 1]
                     items.append(["probe", c, xv, ["same"]])
                     items.append(["probe", c, xv, ["inst", c, list(xv)]])
-        inp["items"] = items
-        out.append(inp)
+        if not items:
+            out.append(inp)
+        items = compact(items)
+        for j in range(0, len(items), 8):
+            out.append({"chain": specs, "script": {}, "items": items[j:j + 8]})
     return out
 
 
@@ -734,7 +770,10 @@ def wide_cases(rng, tier):
             xv = rand_vals(rng, k)
             yv = [v if rng.random() < 0.75 else ["i", rng.randint(0, 2)] for v in xv]
             items.append(["probe", 0, xv, ["inst", 0, yv]])
-        out.append({"chain": [rand_layer(rng, own)], "script": {}, "items": items})
+        layer = rand_layer(rng, own)
+        items = compact(items)
+        for j in range(0, len(items), 15):
+            out.append({"chain": [layer], "script": {}, "items": items[j:j + 15]})
     return out
 
 
